@@ -16,7 +16,9 @@ CONSTANTS N,          \* heights
           WPrune,     \* pruning window (ticks)
           AsIsDeviation,  \* TRUE: the pinned code's behaviour when the header above the batch was pruned
           EnablePrune,    \* environment contains the pruner
-          EnableForeign   \* environment contains peers serving a foreign chain
+          EnableForeign,  \* environment contains peers serving a foreign chain
+          SlowThr         \* slow sync: how many stored-but-unsampled headers may wait for the sampler
+                          \* (max(batch_size / 2, 50) in the code)
 
 VARIABLES stored, pruned, foreign,   \* the header store; foreign: stored heights holding a non-honest header
           sampled,                    \* heights marked sampled (only matters for the pruner's permission)
@@ -24,10 +26,11 @@ VARIABLES stored, pruned, foreign,   \* the header store; foreign: stored height
           peers, trusted,             \* connected peers (0..2), whether one of them is trusted
           phase, subj, ongoing, hsub, \* syncer worker state
           sawPeer,                    \* try_init has passed wait_connected_trusted (it then finishes even if peers leave)
+          slowH,                      \* highest_slow_sync_height (0 = none): highest fetched header older than the pruning window
           lastFetch                   \* observation: the last batch requested with the facts at request time
 
 svars == <<stored, pruned, foreign, sampled>>
-vars  == <<stored, pruned, foreign, sampled, now, netHead, peers, trusted, phase, subj, ongoing, hsub, sawPeer, lastFetch>>
+vars  == <<stored, pruned, foreign, sampled, now, netHead, peers, trusted, phase, subj, ongoing, hsub, sawPeer, slowH, lastFetch>>
 
 NoFetch == <<>>
 Synced == stored \cup pruned
@@ -37,7 +40,7 @@ StoreHead == IF stored = {} THEN 0 ELSE MaxOf(stored)
 Init == /\ stored = {} /\ pruned = {} /\ foreign = {} /\ sampled = {}
         /\ now = 1 /\ netHead = 1
         /\ peers = 0 /\ trusted = FALSE /\ phase = "connecting" /\ subj = 0 /\ ongoing = <<>> /\ hsub = FALSE /\ sawPeer = FALSE
-        /\ lastFetch = NoFetch
+        /\ slowH = 0 /\ lastFetch = NoFetch
 
 (* ---- store insertion as the syncer sees it ---- *)
 \* honest headers lo..hi: admitted by the constraints and verified against stored neighbours
@@ -55,25 +58,25 @@ DoInsert(lo, hi, isForeign) ==
 
 (* ---- environment ---- *)
 NewBlock == /\ netHead < N /\ netHead' = netHead + 1 /\ now' = now + 1
-            /\ UNCHANGED <<stored, pruned, foreign, sampled, peers, trusted, phase, subj, ongoing, hsub, lastFetch, sawPeer>>
+            /\ UNCHANGED <<stored, pruned, foreign, sampled, peers, trusted, phase, subj, ongoing, hsub, lastFetch, sawPeer, slowH>>
 
 Connect == /\ peers = 0 /\ peers' = 1 /\ trusted' = TRUE      \* a trusted peer connects
            /\ sawPeer' = (sawPeer \/ phase = "connecting")
-           /\ UNCHANGED <<stored, pruned, foreign, sampled, now, netHead, phase, subj, ongoing, hsub, lastFetch>>
+           /\ UNCHANGED <<stored, pruned, foreign, sampled, now, netHead, phase, subj, ongoing, hsub, lastFetch, slowH>>
 
 \* all peers disconnect: the connected loop ends, the ongoing batch is cancelled
 Disconnect == /\ peers >= 1 /\ peers' = 0 /\ trusted' = FALSE /\ phase' = "connecting" /\ ongoing' = <<>> /\ hsub' = FALSE
-              /\ UNCHANGED <<stored, pruned, foreign, sampled, now, netHead, subj, lastFetch, sawPeer>>
+              /\ UNCHANGED <<stored, pruned, foreign, sampled, now, netHead, subj, lastFetch, sawPeer, slowH>>
 
 \* an ordinary (untrusted) peer joins; the trusted peer leaves while an ordinary one stays: the
 \* syncer keeps working (it needs *a* peer to fetch, a trusted one only to initialise)
 PlainJoin == /\ peers = 1 /\ peers' = 2
-             /\ UNCHANGED <<stored, pruned, foreign, sampled, now, netHead, trusted, phase, subj, ongoing, hsub, lastFetch, sawPeer>>
+             /\ UNCHANGED <<stored, pruned, foreign, sampled, now, netHead, trusted, phase, subj, ongoing, hsub, lastFetch, sawPeer, slowH>>
 TrustedLeave == /\ peers = 2 /\ trusted /\ peers' = 1 /\ trusted' = FALSE
-                /\ UNCHANGED <<stored, pruned, foreign, sampled, now, netHead, phase, subj, ongoing, hsub, lastFetch, sawPeer>>
+                /\ UNCHANGED <<stored, pruned, foreign, sampled, now, netHead, phase, subj, ongoing, hsub, lastFetch, sawPeer, slowH>>
 
 MarkSampled(h) == /\ h \in stored /\ sampled' = sampled \cup {h}
-                  /\ UNCHANGED <<stored, pruned, foreign, now, netHead, peers, trusted, phase, subj, ongoing, hsub, lastFetch, sawPeer>>
+                  /\ UNCHANGED <<stored, pruned, foreign, now, netHead, peers, trusted, phase, subj, ongoing, hsub, lastFetch, sawPeer, slowH>>
 
 \* what the pruner may remove (C35): outside the pruning window, and inside the sampling window only
 \* sampled headers that are not an edge of the synced ranges
@@ -82,7 +85,7 @@ Prunable(h) == /\ h \in stored /\ ~InWin(h, WPrune)
 Prune(h) == /\ Prunable(h)
             /\ stored' = stored \ {h} /\ pruned' = pruned \cup {h} /\ sampled' = sampled \ {h}
             /\ foreign' = foreign \ {h}
-            /\ UNCHANGED <<now, netHead, peers, trusted, phase, subj, ongoing, hsub, lastFetch, sawPeer>>
+            /\ UNCHANGED <<now, netHead, peers, trusted, phase, subj, ongoing, hsub, lastFetch, sawPeer, slowH>>
 
 (* ---- the worker ---- *)
 \* connecting_event_loop / try_init: a trusted peer is connected, the network head is fetched and
@@ -97,7 +100,7 @@ TryInit ==
     \* with no peer left the connected loop returns at once and the worker waits for peers again
     /\ phase' = (IF peers >= 1 THEN "connected" ELSE "connecting") /\ hsub' = (peers >= 1)
     /\ sawPeer' = FALSE
-    /\ UNCHANGED <<now, netHead, peers, trusted, ongoing, lastFetch>>
+    /\ UNCHANGED <<now, netHead, peers, trusted, ongoing, lastFetch, slowH>>
 
 \* a header announced on header-sub
 HeaderSub ==
@@ -106,7 +109,15 @@ HeaderSub ==
     /\ IF stored # {} /\ StoreHead + 1 = netHead /\ HonestInsertOk(netHead, netHead)
        THEN DoInsert(netHead, netHead, FALSE)
        ELSE UNCHANGED svars
-    /\ UNCHANGED <<now, netHead, peers, trusted, phase, ongoing, hsub, lastFetch, sawPeer>>
+    /\ UNCHANGED <<now, netHead, peers, trusted, phase, ongoing, hsub, lastFetch, sawPeer, slowH>>
+
+\* slow sync (on_fetch_next_batch_result): the highest header of a received batch that is older than the
+\* pruning window raises highest_slow_sync_height -- whether or not the batch is then stored
+SlowAfter(lo, hi) == LET O == {h \in lo..hi : ~InWin(h, WPrune)} IN
+                     IF O # {} /\ MaxOf(O) > slowH THEN MaxOf(O) ELSE slowH
+\* ... and a batch that lies entirely at or below it is not requested while more than SlowThr stored headers
+\* still wait for the sampler (the pruner removes sampled old headers; the syncer stays ahead of it, not far)
+SlowSyncHolds(b) == slowH # 0 /\ MaxOf(b) <= slowH /\ Cardinality(stored \ sampled) > SlowThr
 
 \* fetch_next_batch
 NextBatch == CalcRange(subj, Synced, Batch)
@@ -114,6 +125,7 @@ FetchNext ==
     /\ phase = "connected" /\ ongoing = <<>> /\ peers >= 1 /\ subj # 0
     /\ LET b == NextBatch IN
        /\ b # {}
+       /\ ~SlowSyncHolds(b)
        /\ LET e == MaxOf(b) + 1 IN
             \/ e \in stored /\ InWin(e, WSamp)                \* known header above the batch is in the window
             \/ e \notin stored /\ e \notin pruned             \* nothing known above the batch
@@ -121,22 +133,22 @@ FetchNext ==
        /\ ongoing' = <<MinOf(b), MaxOf(b)>>
        /\ lastFetch' = [lo |-> MinOf(b), hi |-> MaxOf(b), subj |-> subj, synced |-> Synced,
                         old |-> {h \in Synced : h > MaxOf(b) /\ ~InWin(h, WSamp)}]
-    /\ UNCHANGED <<stored, pruned, foreign, sampled, now, netHead, peers, trusted, phase, subj, hsub, sawPeer>>
+    /\ UNCHANGED <<stored, pruned, foreign, sampled, now, netHead, peers, trusted, phase, subj, hsub, sawPeer, slowH>>
 
 \* the batch comes back: honest headers, headers of a foreign chain, or any failure
 BatchOk ==
     /\ phase = "connected" /\ ongoing # <<>>
     /\ IF HonestInsertOk(ongoing[1], ongoing[2]) THEN DoInsert(ongoing[1], ongoing[2], FALSE) ELSE UNCHANGED svars
-    /\ ongoing' = <<>>
+    /\ ongoing' = <<>> /\ slowH' = SlowAfter(ongoing[1], ongoing[2])
     /\ UNCHANGED <<now, netHead, peers, trusted, phase, subj, hsub, lastFetch, sawPeer>>
 BatchForeign ==
     /\ phase = "connected" /\ ongoing # <<>>
     /\ IF ForeignInsertOk(ongoing[1], ongoing[2]) THEN DoInsert(ongoing[1], ongoing[2], TRUE) ELSE UNCHANGED svars
-    /\ ongoing' = <<>>
+    /\ ongoing' = <<>> /\ slowH' = SlowAfter(ongoing[1], ongoing[2])
     /\ UNCHANGED <<now, netHead, peers, trusted, phase, subj, hsub, lastFetch, sawPeer>>
 BatchFail ==
     /\ phase = "connected" /\ ongoing # <<>> /\ ongoing' = <<>>
-    /\ UNCHANGED <<stored, pruned, foreign, sampled, now, netHead, peers, trusted, phase, subj, hsub, lastFetch, sawPeer>>
+    /\ UNCHANGED <<stored, pruned, foreign, sampled, now, netHead, peers, trusted, phase, subj, hsub, lastFetch, sawPeer, slowH>>
 
 Worker == TryInit \/ HeaderSub \/ FetchNext \/ BatchOk
 Env    == \/ NewBlock \/ Connect \/ Disconnect \/ BatchFail \/ PlainJoin \/ TrustedLeave
@@ -165,4 +177,9 @@ WindowStored == \A h \in 1..netHead : InWin(h, WSamp) => h \in stored
 HonestFair == /\ WF_vars(TryInit) /\ WF_vars(HeaderSub) /\ WF_vars(FetchNext) /\ WF_vars(BatchOk) /\ WF_vars(Connect)
 LiveSpec == Init /\ [][Worker \/ NewBlock \/ Connect]_vars /\ HonestFair
 EventuallySynced == <>[](netHead = N => WindowStored)
+\* the same with slow sync in force: the syncer waits for the sampler, which is fair too
+SampleSome == \E h \in stored \ sampled : MarkSampled(h)
+LiveSpecSlow == Init /\ [][Worker \/ NewBlock \/ Connect \/ SampleSome]_vars /\ HonestFair /\ WF_vars(SampleSome)
+\* slow sync really holds the syncer back at some point (vacuity guard for the configuration: must be violated)
+SlowSyncNeverHolds == ~(phase = "connected" /\ ongoing = <<>> /\ subj # 0 /\ NextBatch # {} /\ SlowSyncHolds(NextBatch))
 =============================================================================
